@@ -50,3 +50,39 @@ package verifspec
 //@ property S01
 //@   param x: int32
 //@   ensures result == x
+// objects are mutable records: old() must see the value before the write (a state copy owns its records)
+//@ js st.js $ok_setlen
+//@ property S01
+//@   param s: slice
+//@   ensures result.$length == 0
+//@ js st.js $bad_setlen
+//@ property S01
+//@   param s: slice
+//@   ensures result.$length == old(s.$length)
+// descriptors, captured flags, string identities
+//@ js st.js $ok_flag
+//@ property S01
+//@   param f: desc
+//@   captured typ: flags comparable
+//@   ensures !f.typ.comparable ==> !typ.comparable
+//@   ensures f.typ.comparable ==> typ.comparable == old(typ.comparable)
+//@ js st.js $bad_flag
+//@ property S01
+//@   param f: desc
+//@   captured typ: flags comparable
+//@   ensures !f.typ.comparable ==> !typ.comparable
+// value objects with computed keys
+//@ js st.js $ok_reccopy
+//@ property S01
+//@   param dst: rec, src: rec
+//@   captured fields: descarr
+//@   requires ref(dst) != ref(src)
+//@   loop 1 invariant 0 <= i && i <= len(fields) && forall(k, 0, i, dst[fields[k].prop] == old(src[fields[k].prop])) && forall(k, 0, len(fields), src[fields[k].prop] == old(src[fields[k].prop]))
+//@   ensures forall(k, 0, len(fields), dst[fields[k].prop] == old(src[fields[k].prop]))
+//@ js st.js $bad_reccopy
+//@ property S01
+//@   param dst: rec, src: rec
+//@   captured fields: descarr
+//@   requires ref(dst) != ref(src)
+//@   loop 1 invariant 1 <= i && (i <= len(fields) || len(fields) == 0) && forall(k, 1, i, dst[fields[k].prop] == old(src[fields[k].prop])) && forall(k, 0, len(fields), src[fields[k].prop] == old(src[fields[k].prop]))
+//@   ensures forall(k, 0, len(fields), dst[fields[k].prop] == old(src[fields[k].prop]))
